@@ -421,7 +421,8 @@ def nwrites_of(ops):
     n = 0
     for o in ops:
         k = o["op"]
-        n += {"get_prompt": 1, "send_input": 2, "write": 1, "send_return": 1, "login_telnet": 4, "login_ssh": 4}.get(k, 0)
+        n += {"get_prompt": 1, "send_input": 2, "write": 1, "send_return": 1, "login_telnet": 4, "login_ssh": 4,
+              "send_and_read": 2}.get(k, 0)
         if k == "interact":
             n += 2 * len(o["events"])
     return n
@@ -484,6 +485,8 @@ def gen_chan_case(rng, tr=None, script=None, fault=None, drop=None, how=None, po
     if rng.random() < 0.4:
         tail += [{"op": "close"}, dict(rng.choice(TAIL_OPS[:5]))]
     case["ops"] = ops + tail
+    if rng.random() < 0.3:
+        case["lock"] = True      # channel_lock=True: what a loss interrupts must not keep the lock from the operations after it
     if any(o["op"] == "read" for o in case["ops"]) and not case["Ti"]:
         case["Ti"] = 0.15      # a bare transport.read() with no timeout at all blocks for ever on a silent peer
     sticky = fault == "read" and (how == ["E"] or (how[0] == "R" and how[1] != "TimeoutError"))
@@ -529,6 +532,54 @@ def chan_corpus():
                                 "recvs": [D(x) for x in cut_stream(c, d)] + [how], "sends": sends, "probes": [], "closes": [],
                                 "script": ["login_telnet"], "fault": "read", "drop": {"byte": d, "how": how},
                                 "ops": [dict(o[0]), {"op": "get_prompt"}]})
+    return out
+
+
+# ------------------------------------------------------------------------------------------------
+# read-for-a-duration: channel.send_input_and_read (its loop _read_until_prompt_or_time is the one read loop of the
+# channels with an except/suppress table of its own), the session dropping at EVERY byte offset of the exchange
+# ------------------------------------------------------------------------------------------------
+SAR_DUR = 0.8        # < 1: the loop arms no transport timeout (int(read_duration) == 0); every nominal exchange ends on a match
+SAR_SCRIPTS = {
+    # until the prompt
+    "send_and_read": ({"op": "send_and_read", "input": "showz", "dur": SAR_DUR},
+                      [b"sho", b"wz", b"\n", b"line one\nline two\n", b"r1#"]),
+    # until an expected output (what follows it stays unread)
+    "send_and_read_expect": ({"op": "send_and_read", "input": "showz", "expect": ["ne tw"], "dur": SAR_DUR},
+                             [b"showz", b"\nline o", b"ne\nline two\n", b"r1#"]),
+}
+
+
+def sar_chan_cases(rng, thorough):
+    """every transport x {until the prompt, until an expected output} x EVERY byte offset of the exchange (echo, answer,
+    prompt) x a loss kind (quick: rotating through all of the transport's, so that each occurs at every region;
+    thorough: each), chunking nominal / 1-byte / random, channel_lock on every other one; then further operations on
+    the same (dead) connection.  Oracle only (the model has no read-for-a-duration instruction: ConnLossTime.v models the
+    loop alone)"""
+    out = []
+    for ti, tr in enumerate(ALL_TR):
+        hows = [h for h in loss_events(tr) if h != ["B"]]
+        for vi, (name, (op, chunks)) in enumerate(sorted(SAR_SCRIPTS.items())):
+            total = sum(len(c) for c in chunks)
+            for d in range(total + 1):
+                for how in (hows if thorough else [hows[(d + ti + vi) % len(hows)]]):
+                    policy = ["nominal", "bytes", "random"][(d + len(out)) % 3]
+                    cs = subdivide(rng, chunks, policy)
+                    tail = [{"op": "get_prompt"}] + [dict(rng.choice(TAIL_OPS)) for _ in range(rng.choice([0, 1]))]
+                    c = {"kind": "channel", "tr": tr, "To": 0.4, "Ti": 0.0, "init": "open",
+                         "recvs": [D(x) for x in cut_stream(cs, d)] + [how], "sends": [], "probes": [], "closes": [],
+                         "script": [name], "policy": policy, "fault": "read", "drop": {"byte": d, "how": how},
+                         "oracle_only": True, "lock": (d + ti) % 2 == 0, "ops": [dict(op)] + tail}
+                    if any(o["op"] == "read" for o in tail):
+                        c["Ti"] = 0.15
+                    out.append(c)
+            # a failing write (the input, the return)
+            for w in (0, 1):
+                how = ["R", rng.choice(MAY_SEND[tr])]
+                out.append({"kind": "channel", "tr": tr, "To": 0.4, "Ti": 0.0, "init": "open",
+                            "recvs": [D(x) for x in chunks] + [["E"]], "sends": [["ok"]] * w + [how], "probes": [], "closes": [],
+                            "script": [name], "policy": "nominal", "fault": "write", "drop": {"write": w + 1, "how": how},
+                            "oracle_only": True, "lock": w == 0, "ops": [dict(op), {"op": "get_prompt"}]})
     return out
 
 
@@ -672,8 +723,8 @@ Definition chk (x : transport * N * N * nat * list op * env * list rev * list (N
 # ------------------------------------------------------------------------------------------------
 # oracle on the implementation's observations (independent of the model)
 # ------------------------------------------------------------------------------------------------
-CHAN_OPS = ("get_prompt", "send_input", "interact", "login_telnet", "login_ssh", "send_return")
-READING_OPS = ("get_prompt", "send_input", "interact", "login_telnet", "login_ssh")
+CHAN_OPS = ("get_prompt", "send_input", "interact", "login_telnet", "login_ssh", "send_return", "send_and_read")
+READING_OPS = ("get_prompt", "send_input", "interact", "login_telnet", "login_ssh", "send_and_read")
 
 
 def _raw_or_hang(out):
@@ -953,14 +1004,52 @@ def driver_cases(rng, thorough, stream_len, nwrites):
                 chunk = rng.choice([("whole",), ("whole",), ("bytes", 3), ("random", rng.randint(1, 999), 9)])
                 after_w = rng.choice([["ok"], ["ok"], ["R", rng.choice(LOSS_SEND)]]) if tr not in ("sim", "asim") else ["ok"]
                 out.append(driver_case(tr, {"byte": d, "how": how, "after_w": after_w}, chunk))
+                # channel_lock=True: the operations after the drop run on the same object and need the lock the
+                # interrupted one held (a leaked lock = a hang, seen by the watchdog)
+                out[-1]["lock"] = rng.random() < 0.5
         wpick = range(1, nwrites + 1) if thorough else sorted(set(rng.sample(range(1, nwrites + 1), 8) + [1, nwrites]))
         for w in wpick:
             how = ["R", rng.choice(LOSS_SEND)] if tr not in ("sim", "asim") else ["E"]
             out.append(driver_case(tr, {"write": w, "how": how, "after_w": how}))
+            out[-1]["lock"] = w % 2 == 0
         # the device goes silent instead of dropping: the timeout is the backstop
         for d in ([5, 120, 250] if not thorough else [5, 60, 120, 180, 250, 300]):
             if tr not in ("sim", "asim"):
                 out.append(driver_case(tr, {"byte": min(d, stream_len), "how": ["B"]}, To=0.3))
+    return out
+
+
+# (Async)NetworkDriver.send_and_read -- until an expected output, until the prompt -- and operations after it
+SAR_OPS = [{"op": "open"}, {"op": "send_and_read", "cmd": "show version", "expect": ["1 week"], "dur": SAR_DUR},
+           {"op": "send_and_read", "cmd": "show clock", "dur": SAR_DUR}, {"op": "get_prompt"}, {"op": "close"},
+           {"op": "send_and_read", "cmd": "show clock", "dur": SAR_DUR}]
+
+
+def sar_driver_cases(rng, thorough, spans):
+    """spans: per transport (first, last) byte offset of the device's output stream that belongs to the two
+    send_and_read exchanges of SAR_OPS (from the run without a fault): a drop at EVERY one of them (quick: every offset
+    on at least three of the seven transports), and at each of the exchanges' writes; channel_lock on every other one"""
+    out = []
+    for ti, tr in enumerate(DRIVER_TR):
+        if tr not in spans:
+            continue
+        hows = [["E"]] if tr in ("sim", "asim") else \
+            [["E"]] + [["R", c] for c in MAY_RECV[tr] if c not in ("Exception", "TimeoutError")]
+        lo, hi = spans[tr]["bytes"]
+        for d in range(lo, hi + 1):
+            if not thorough and (d + ti) % 2:
+                continue
+            chunk = rng.choice([("whole",), ("whole",), ("bytes", 3), ("random", rng.randint(1, 999), 9)])
+            after_w = rng.choice([["ok"], ["ok"], ["R", rng.choice(LOSS_SEND)]]) if tr not in ("sim", "asim") else ["ok"]
+            c = driver_case(tr, {"byte": d, "how": rng.choice(hows), "after_w": after_w}, chunk, ops=SAR_OPS)
+            c["lock"] = (d // 2 + ti) % 2 == 0
+            out.append(c)
+        wlo, whi = spans[tr]["writes"]
+        for w in range(wlo, whi + 1):
+            how = ["R", rng.choice(LOSS_SEND)] if tr not in ("sim", "asim") else ["E"]
+            c = driver_case(tr, {"write": w, "how": how, "after_w": how}, ops=SAR_OPS)
+            c["lock"] = w % 2 == 0
+            out.append(c)
     return out
 
 
@@ -1119,6 +1208,7 @@ def run(rep):
                 chan.append(gen_chan_case(rng, tr=tr, script=name, fault=fault))
     chan += [gen_chan_case(rng) for _ in range(n_rand)]
     chan += neg_chan_cases(rng, thorough)      # writes inside a read: the option burst, the peer gone before the replies
+    chan += sar_chan_cases(rng, thorough)      # send_input_and_read: a drop at every byte offset of the exchange
     res = run_cases(chan, rep.workdir, "chan")
     for c, r in zip(chan, res):
         key = (c["tr"], tuple(c.get("script", [])), c.get("fault"), json.dumps(c.get("drop")), json.dumps(c["recvs"])[:200])
@@ -1138,7 +1228,7 @@ def run(rep):
         report("conn-loss channel", chan[i], res[i], obad[i])
     mbad = None
     if model_ok:
-        okix = [i for i, r in enumerate(res) if "ops" in r and not chan[i].get("neg")]
+        okix = [i for i, r in enumerate(res) if "ops" in r and not chan[i].get("neg") and not chan[i].get("oracle_only")]
         terms = [chan_case_term(chan[i], res[i]["ops"]) for i in okix]
         mb, log = common.eval_cases(rep.workdir, "cases_c08_chan", CHAN_HEADER, terms, "chk")
         # the reads over an option burst: ConnLossNeg.v
@@ -1212,10 +1302,27 @@ def run(rep):
 
     phase("open")
     # 4. whole drivers: a drop at every byte offset of the device's output / at every write
-    nominal = run_cases([driver_case(tr) for tr in DRIVER_TR], rep.workdir, "drv0", jobs=7)
-    nb = _judge([driver_case(tr) for tr in DRIVER_TR], nominal)
+    nom_cases = [driver_case(tr) for tr in DRIVER_TR] + [driver_case(tr, ops=SAR_OPS) for tr in DRIVER_TR] \
+        + [dict(driver_case(tr, ops=SAR_OPS), lock=True) for tr in DRIVER_TR]
+    nominal = run_cases(nom_cases, rep.workdir, "drv0", jobs=11)
+    nb = _judge(nom_cases, nominal)
+    for i, (c, r) in enumerate(zip(nom_cases, nominal)):
+        # without a fault every operation before close() succeeds
+        if i not in nb and "ops" in r:
+            bad = [o["op"] for op, o in zip(c["ops"], r["ops"]) if o["out"][0] != "ok" and op is not c["ops"][-1]]
+            if bad:
+                nb[i] = ["without a fault: %s did not succeed: %s" % (bad, [o["out"] for o in r["ops"]])]
     for i in sorted(nb)[:3]:
-        report("conn-loss driver (no fault)", driver_case(DRIVER_TR[i]), nominal[i], nb[i])
+        report("conn-loss driver (no fault)", nom_cases[i], nominal[i], nb[i])
+    spans = {}
+    for tr, r in zip(DRIVER_TR, nominal[len(DRIVER_TR):2 * len(DRIVER_TR)]):
+        if "ops" in r and len(r["ops"]) == len(SAR_OPS) and all("delivered" in o for o in r["ops"]):
+            spans[tr] = {"bytes": (r["ops"][0]["delivered"], r["ops"][2]["delivered"]),
+                         "writes": (r["ops"][0]["nwrites"] + 1, r["ops"][2]["nwrites"])}
+    if len(spans) != len(DRIVER_TR) or any(v["bytes"][1] - v["bytes"][0] < 40 or v["writes"][1] - v["writes"][0] != 3
+                                           for v in spans.values()):
+        rep.broken.append("driver suite: the nominal send_and_read session did not run as expected: %s" % spans)
+    nominal, nominal_all = nominal[:len(DRIVER_TR)], nominal
     lens = [r.get("stream_len", 0) for r in nominal if "ops" in r]
     nws = [r.get("nwrites", 0) for r in nominal if "ops" in r]
     if not lens or min(lens) < 50:
@@ -1223,12 +1330,14 @@ def run(rep):
         drv, dres = [], []
     else:
         drv = [c for _, c in fcases if c["kind"] in ("driver", "dopen")] + driver_cases(rng, thorough, min(lens), min(nws)) \
-            + neg_dopen_cases(rng, thorough)
+            + neg_dopen_cases(rng, thorough) + sar_driver_cases(rng, thorough, spans)
         dres = run_cases(drv, rep.workdir, "drv")
         for c, r in zip(drv, dres):
-            rep.case(("driver", c["kind"], c["tr"], json.dumps(c.get("drop")), json.dumps(c.get("chunk")), json.dumps(c.get("neg"))),
+            rep.case(("driver", c["kind"], c["tr"], json.dumps(c.get("drop")), json.dumps(c.get("chunk")), json.dumps(c.get("neg")),
+                      len(c["ops"]), c.get("lock")),
                      nontrivial=any(o.get("dropped") or o.get("lost") for o in r.get("ops", [])))
-            dk = "%s/%s" % (c["tr"], "neg-open" if c["kind"] == "dopen" else "byte" if "byte" in (c.get("drop") or {}) else "write")
+            dk = "%s/%s%s" % (c["tr"], "send_and_read-" if c["ops"] == SAR_OPS else "",
+                              "neg-open" if c["kind"] == "dopen" else "byte" if "byte" in (c.get("drop") or {}) else "write")
             dist["driver"][dk] = dist["driver"].get(dk, 0) + 1
         db = _judge(drv, dres)
         db = _confirm(rep, drv, sorted(db), "drv_o", lambda c, r: ORACLES[c["kind"]](c, r), dres)
@@ -1261,6 +1370,7 @@ def run(rep):
 
     phase("runtime")
     # 6. verdicts
+    nominal = nominal_all
     nerr = sum(1 for r in res + ores + dres + rres + nominal if r.get("harness_error"))
     if nerr:
         rep.broken.append("harness: %d scenario(s) could not be run" % nerr)
@@ -1275,7 +1385,8 @@ def run(rep):
     }
     rep.coverage["generated_from"] = common.source_hashes(SOURCES)
     rep.coverage["generated"] = {k: v for k, v in info.items() if k in ("login_sync", "login_async", "login_async_sleeps",
-                                                                      "chan_loops_try_free", "sock_alive", "sock_shutdown", "negotiation")}
+                                                                      "chan_loops_try_free", "sock_alive", "sock_shutdown", "negotiation",
+                                                                      "rtime_sync", "rtime_async", "chan_lock_released")}
     rep.coverage["wall_parts_s"] = phases
     rep.rule = ("channel suite: every transport x every scripted operation (get_prompt, send_input, send_inputs_interact, telnet/ssh "
                 "in-channel login, bare read/write) x a read fault (EOF / each documented exception / silence) at a random byte "
@@ -1290,7 +1401,15 @@ def run(rep):
                 "next read ending in EOF, an exception, data or silence -- at transport level (bare read(), compared with the "
                 "model), through the in-channel Telnet login and get_prompt, through (Async)GenericDriver.open() with in-channel "
                 "authentication over the scripted socket / stream pair, and on real loopback sockets (burst, login prompt, FIN or "
-                "RST before a single option is answered).  non-trivial = a loss was met (or the transport was not open); distinct = "
+                "RST before a single option is answered); read-for-a-duration: channel.send_input_and_read (until the prompt / "
+                "until an expected output) on every transport with the session dropping at EVERY byte offset of the exchange and "
+                "at each of its writes, every loss kind, nominal / 1-byte / random chunking, and (Async)NetworkDriver.send_and_read "
+                "(both variants) in an IOS-XE session over the simulated and the five real transports with a drop at every byte "
+                "offset of the two exchanges (quick: every offset on at least three transports) and at each of their writes; "
+                "channel_lock=True on about half of the driver scenarios and a third of the channel scenarios: the operations "
+                "after the drop run on the same object and need the lock the interrupted one held (a leaked lock = a hang seen "
+                "by the watchdog, or a ScrapliTimeout + closed transport where ScrapliConnectionNotOpened is due).  "
+                "non-trivial = a loss was met (or the transport was not open); distinct = "
                 "(transport, script, fault, history)")
     rep.extra_assumptions += [
         "library model of coq/model/ConnLoss.v (sticky EOF / sticky loss exceptions / liveness probes answer dead after a loss; "
@@ -1352,13 +1471,24 @@ MANIFEST = {
             "(sync telnet probes the socket once per byte), ends normally, waiting, or in a ScrapliException subclass, and leaves a "
             "state the main theorems apply to; instantiated with the reply-site facts generated from the source (every send / "
             "write call reachable from read(), the try/except tables between a reply's low-level send and the caller of read(), "
-            "whether the handler's guard is a liveness probe), checked by vm_compute (C08_negotiation_config_ok). Tie (b): the real transports and channels "
+            "whether the handler's guard is a liveness probe), checked by vm_compute (C08_negotiation_config_ok). The "
+            "read-for-a-duration loop of send_input_and_read / send_and_read (_read_until_prompt_or_time, the one other channel "
+            "loop with an except / suppress table around self.read()): its table is generated from the source (sync and asyncio) "
+            "and must pass rtime_ok inside C08_generated_config_ok -- nothing but a ScrapliTimeout is swallowed --, and "
+            "C08_read_for_duration / C08_read_for_duration_raises (model ConnLossTime.v) prove for every transport, matcher, "
+            "buffer, time left and event history that the loop ends normally, blocked (the timeout's) or in a ScrapliException, "
+            "and that a round in which read() raises a connection-loss class ends it raised -- a drop in the middle of the "
+            "answer is never the end of the output. C08_generated_config_ok also demands that the channel lock context manager "
+            "gives the lock back however the operation under it ends. Tie (b): the real transports and channels "
             "(sync and asyncio) over scripted sockets / stream readers / pty / paramiko / asyncssh objects run on ~1500 (thorough "
             "~5000) generated fault histories and must agree with the model evaluated by vm_compute; open() of every transport "
             "with every library step failing. Tie (c): an independent oracle (exception class, latency <= timeout + 1 s, isalive() "
             "afterwards, later operations, hangs detected by a watchdog process) on those runs, on whole IOS-XE driver sessions over "
             "the simulated and the five real transports with the session dropping at sampled (thorough: every) byte offsets and "
-            "writes, and on a real pty child, real loopback sockets (FIN / RST / half-close) and real ssh sessions (paramiko, "
+            "writes, on send_input_and_read / send_and_read exchanges (until the prompt, until an expected output) with a drop at every "
+            "byte offset (channel level: all five transports; driver level: simulated + five real transports), with "
+            "channel_lock=True on part of the scenarios so that the operations after a drop need the lock of the interrupted one, "
+            "and on a real pty child, real loopback sockets (FIN / RST / half-close) and real ssh sessions (paramiko, "
             "asyncssh, ssh binary) ended mid-way by an in-process asyncssh server. Option-burst scenarios (the peer gone between "
             "its opening burst and the replies: the k-th reply's send raising EPIPE / ECONNRESET / ..., a probe answering dead "
             "mid-burst) run at transport level (compared with ConnLossNeg.v by vm_compute), through the in-channel login, "
@@ -1366,7 +1496,14 @@ MANIFEST = {
             "alphabet of the asyncssh stub also contains the DisconnectError subclasses asyncssh raises per disconnect reason "
             "(ProtocolError, MACError, CompressionError, ServiceNotAvailable, ProtocolNotSupported), treated by the model as "
             "their modelled ancestor DisconnectError.",
-    "note": "Partial: what the OS and the libraries raise, and that their liveness indicators answer dead after a loss, is a "
+    "note": "Read-for-a-duration (send_input_and_read / send_and_read): the loop _read_until_prompt_or_time is modelled on "
+            "its own (coq/model/ConnLossTime.v, theorems C08_read_for_duration / _raises over the table generated from the "
+            "source) and is not an instruction of the operation histories of C08_loss_is_scrapli; the send_and_read scenarios "
+            "(channel and driver level) are oracle-only, not compared with the model; the model's clock is a number of rounds "
+            "(any), a read_duration >= 1 s (which the loop arms as transport timeout) on a silent peer is outside. That the "
+            "channel lock is released however an operation ends is a generated fact (gen_chan_lock_released: the yield under "
+            "`with lock:` or try/finally release) plus the channel_lock=True scenarios; the lock itself is not modelled here "
+            "(C19's). Partial: what the OS and the libraries raise, and that their liveness indicators answer dead after a loss, is a "
             "hand-written library model (may_raise / open_may_raise / sticky EOF and errors in coq/model/ConnLoss.v), confronted "
             "with reality only by the pty / loopback scenarios; wall-clock latency and the timeout decorator's mechanics are "
             "observed (C07 proves the decorator), not proved: the model turns 'blocks' / 'retries for ever' into ScrapliTimeout "
